@@ -144,6 +144,15 @@ func (s *Std) DrawClockKnobs() {
 	}
 }
 
+// DrawLive decides (from the tape) whether this run uses the long-lived SP instance of the
+// worker process, re-configured in place, instead of a fresh one.
+func (s *Std) DrawLive() {
+	if s.T.Int(3, "sp.live") == 1 {
+		s.Cfg.Live = true
+		s.R.Fault("long_lived_sp_reconfigured")
+	}
+}
+
 func (s *Std) Build() bool {
 	n, err := world.NewSPNode(s.Cfg, s.R.Sim.Time)
 	if err != nil {
@@ -151,6 +160,7 @@ func (s *Std) Build() bool {
 		return false
 	}
 	s.Node = n
+	s.Cfg.Reuse = nil // a later Build is a restart: fresh instance
 	return true
 }
 
@@ -225,6 +235,7 @@ func urlUnescape(s string) (string, error) { return url.QueryUnescape(s) }
 // nothing the library keeps at package level may leak between instances.
 func (s *Std) NeighbourNoise(enc string) {
 	cfg := *s.Cfg
+	cfg.Live = false
 	cfg.Name = "neighbour"
 	cfg.ACS = "https://neighbour.example/acs"
 	cfg.SLO = "https://neighbour.example/slo"
